@@ -8,6 +8,8 @@ of freedom, joint order and names, limits, and FK at the exported joint vectors 
 exact poses.  Float variants of the same structures (arbitrary xyz / rpy / unit axes) and the
 five bundled files (parsed by an independent XML walker) are compared with RefEval's chain.
 """
+import contextlib
+import io
 import math
 import os
 import random
@@ -90,6 +92,22 @@ def chain_ref(joints, theta):
     return T
 
 
+def near_half_turn(joints, band=1e-3):
+    """known finding log_near_pi for the loader: it builds the joint frames as transforms (logarithm of each origin's
+    rotation and of the accumulated zero-configuration frames); one of them within `band` of a half turn loses
+    ~2e-15/(pi-angle)^2 there, which the 1e-6 comparison sees inside ~1e-4"""
+    T = np.eye(3)
+    for j in joints:
+        rpy = j["rpy"] if (j["has_origin"] and j["rpy"] is not None) else (0, 0, 0)
+        O = rf.rot_exp([0, 0, rpy[2]]) @ rf.rot_exp([0, rpy[1], 0]) @ rf.rot_exp([rpy[0], 0, 0])
+        T = T @ O
+        for M in (O, T):
+            a = rf.rot_angle(M)
+            if PI - band < a and not np.array_equal(M, M.T):
+                return "log_near_pi"
+    return ""
+
+
 def concrete(js, exact=True, rng=None):
     out = []
     for i, j in enumerate(js):
@@ -168,8 +186,36 @@ def check_file(job):
                 th = np.array([rng.uniform(*(j["limits"] or (-PI, PI))) for j in moving])
                 want = chain_ref(js, th)
                 got = arm.FK(th.copy()).gTM()
-                ev.append(("FK=file semantics", reg, float(np.abs(got - want).max()), 1e-6, dict(case, theta=th.tolist())))
+                ev.append(("FK=file semantics", reg, float(np.abs(got - want).max()), 1e-6, dict(case, theta=th.tolist()),
+                           near_half_turn(js)))
     return ev
+
+
+def known_probe(L):
+    """Deterministic reproduction of log_near_pi for the loader: one revolute joint whose origin is turned pi - 3e-6 about a
+    generic axis (written as rpy angles), tool 1 m out."""
+    from basic_robotics.kinematics import loadArmFromURDF
+    from scipy.spatial.transform import Rotation as Rot
+    R = rf.rot_exp(np.array([0.36, 0.48, 0.8]) * (PI - 3e-6))
+    yaw, pitch, roll = Rot.from_matrix(R).as_euler("ZYX")
+    js = [{"name": "j1", "type": "revolute", "xyz": [0.3, -0.2, 0.5], "rpy": [float(roll), float(pitch), float(yaw)], "has_origin": True,
+           "axis": [0.0, 0.0, 1.0], "limits": [-3.0, 3.0], "parent": "l0", "child": "l1"},
+          {"name": "tool", "type": "fixed", "xyz": [1.0, 0.5, -0.7], "rpy": [0.0, 0.0, 0.0], "has_origin": True, "axis": None, "limits": None,
+           "parent": "l1", "child": "l2"}]
+    os.makedirs(TMPDIR, exist_ok=True)
+    path = os.path.join(TMPDIR, "probe_%d.urdf" % os.getpid())
+    try:
+        write_urdf(path, js, False, False)
+        with contextlib.redirect_stdout(io.StringIO()):
+            arm = loadArmFromURDF(path)
+            th = np.array([0.7])
+            got = arm.FK(th.copy()).gTM()
+        L.log("FK=file semantics", "probe", float(np.abs(got - chain_ref(js, th)).max()), 1e-6, {"probe": "log_near_pi"}, near_half_turn(js))
+    finally:
+        try:
+            os.remove(path)
+        except OSError:
+            pass
 
 
 def check_chunk(jobs):
@@ -284,8 +330,9 @@ def run(ctx):
         res = pmap(check_chunk, chunks)
     L = LawLog()
     for out in res:
-        for law, reg, resid, tol, case in out:
-            L.log(law, reg, resid, tol, case)
+        for e in out:
+            L.log(*e)                   # (law, region, residual, tolerance, case[, known-finding class])
+    known_probe(L)
     with ctx.timed("bundled"):
         bundled(L, rng)
     for reg in ("exact|omitted-parts|world", "exact|omitted-parts|noworld", "exact|all-parts|noworld", "float|omitted-parts|world",
@@ -293,7 +340,7 @@ def run(ctx):
         L.require("FK=exact chain" if reg.startswith("exact") else "FK=file semantics", reg, 10)
         L.require("loads", reg, 5)
     with ctx.timed("lawtrace"):
-        L.decide(ctx, tag="c13")
+        L.decide(ctx, known_tags=["log_near_pi"], tag="c13")
     shapes = sorted(set(e[4].get("shape", "bundled") for e in L.events))
     ctx.sample({"abstract_file": recs[len(recs) // 2]["joints"], "world": recs[len(recs) // 2]["world"],
                 "exact_poses": recs[len(recs) // 2]["poses"]})
